@@ -94,10 +94,10 @@ class GroupingChain(Contract):
                      PG + "make_predicted_instances", PG + "toposort_edges")
     dims = ()
     cases = (_cases(["2a", "2b"], 2, ["0", "2"]) + _cases(["3chain", "3chain-rev", "3star", "3in-rev"], 2, ["0"], max_twos=1)
-             + _cases(["3chain-rev", "3star1"], 1, ["2", "3", "0.5", "1.0"]))
-    thorough_cases = _cases(["2a", "2b"], 2, ["0", "2", "0.5", "1.0"]) + _cases([k for k in SKELETONS if k[0] == "3"], 2, ["0", "2", "3", "0.5", "1.0"], max_twos=1)
+             + _cases(["3chain-rev", "3star1"], 1, ["1", "2", "3", "0.5", "1.0"]))
+    thorough_cases = _cases(["2a", "2b"], 2, ["0", "1", "2", "0.5", "1.0"]) + _cases([k for k in SKELETONS if k[0] == "3"], 2, ["0", "1", "2", "3", "0.5", "1.0"], max_twos=1)
     rand_ranges = {"min_line_scores": (-0.5, 0.9)}
-    bounded = ("tree skeletons on 2..3 nodes (all listed edge orders/orientations), 0..2 peaks per node type (3 nodes: at most one node type with 2 peaks), min_instance_peaks in {0,2,3,0.5,1.0}; "
+    bounded = ("tree skeletons on 2..3 nodes (all listed edge orders/orientations), 0..2 peaks per node type (3 nodes: at most one node type with 2 peaks), min_instance_peaks in {0,1,2,3,0.5,1.0}; "
                "PAF line scoring abstracted to an arbitrary finite-or-NaN score per candidate pair; reported as a bounded stand-in, not an unbounded proof",)
     not_decided = ("make_line_subs / get_paf_lines / score_paf_lines / compute_distance_penalty (PAF sampling and scoring; interp1d and advanced indexing outside the modelled library subset): "
                    "totality for peaks outside the PAF extent and coincident peaks is NOT decided -- their effect (NaN scores) is covered through the abstract scores",
